@@ -335,6 +335,16 @@ func driveC20(seed int64, tier string, out string, replay string) {
 				}
 			}
 		}
+		// wide fan-outs (a list of many entities at one level)
+		for _, n := range []int{64, 65, 101, 130} {
+			c := c20Case{N: n, Mode: 0, Perturb: rng.Int63()}
+			for i := 0; i < n; i++ {
+				if i%17 == 3 {
+					c.ErrSet = append(c.ErrSet, i)
+				}
+			}
+			cases = append(cases, c)
+		}
 		for len(cases) < runs {
 			n := rng.Intn(maxN + 1)
 			c := c20Case{N: n, Mode: rng.Intn(5), Perturb: rng.Int63(), Shared: len(cases)%5 == 4}
